@@ -179,7 +179,8 @@ class NeuralTS(RLAlgorithm):
         self.numel = sum(
             w.numel() for w in self.exp_layer.parameters() if w.requires_grad
         )
-        self.sigma_inv = self.lamb * torch.eye(self.numel).to(self.device)
+        # NOTE: Inverse of the regularised (empty) Gram matrix lambda * I
+        self.sigma_inv = torch.eye(self.numel).to(self.device) / self.lamb
         self.theta_0 = torch.cat(
             [w.flatten() for w in self.exp_layer.parameters() if w.requires_grad]
         )
